@@ -74,7 +74,7 @@ PROPS = {
     "C12": {
         "prefixes": ["c12"],
         "assumptions": COMMON,
-        "explanation": "scratch-memory carving: the advertised buffer size always suffices, slices have the documented lengths, are aligned and pairwise disjoint",
+        "explanation": "scratch-memory carving: the advertised buffer size always suffices, slices have the documented lengths, are aligned and pairwise disjoint; to_path command-stream grammar on 3-point outlines (recording pen)",
     },
     "C13": {
         "prefixes": ["c13"],
